@@ -30,6 +30,7 @@ from typing import Any, Dict, List, Optional
 
 from common import Ctx, delta_min, hx, run_model_parallel
 from ref import c14_pairverify as refpv
+from ref import encoders as refenc
 from ref import pairings as refp
 from ref import tlv8 as reftlv
 
@@ -74,6 +75,12 @@ TRUSTED = [
     "probing persist / load_into, extract/encoder_fields.py); update_advertisement is stubbed (C18); the C06 oracle abstains after a restart "
     "that did not preserve the pairings (C14's statement), the model comparison does not; response.pairing_removed is compared as an observable "
     "(model: pairingRemoved), what the protocol layer does with it is C16",
+    "round 6: every whole-life history runs under a configuration {encoder, live}: application-supplied AccessoryEncoder subclasses of "
+    "harness/ref/encoders.py (exact inverses around the stock document; the file-tree tie unwraps the harness's own envelope) and a LIVE driver "
+    "(real async_persist = executor hand-off on the application-supplied loop, application-owned zeroconf instance, calls made inside the loop and "
+    "followed by waiting for the implementation's background tasks; only the TCP listener of async_start/async_stop is stubbed); lifecycle ops "
+    "stop / start of the same driver object (model: HOp.stop; start = the hash update with the observed accessories_hash); the accessory is an "
+    "application subclass whose setup_message() raises while a request is being served (hooks may fail; it works at start)",
 ]
 
 _LOOP = None
@@ -106,19 +113,71 @@ def _loop():
 # ----------------------------------------------------------------------------- real code
 
 
+class _AsyncNoop:
+    async def __call__(self, *a, **k):
+        return None
+
+
+class SharedZeroconf:
+    """An application-owned zeroconf instance (as e.g. Home Assistant shares one): it survives the driver's stop."""
+
+    def __init__(self):
+        self.calls = []
+
+    async def async_register_service(self, info, **kwargs):
+        self.calls.append("register")
+
+    async def async_update_service(self, info):
+        self.calls.append("update")
+
+    async def async_unregister_service(self, info):
+        self.calls.append("unregister")
+
+    async def async_close(self):
+        self.calls.append("close")
+
+
+async def _settle():
+    """Wait until every background task the implementation created (state saves in the executor) has finished."""
+    import pyhap.util as _u
+
+    for _ in range(20):
+        await asyncio.sleep(0)
+        pending = [t for t in list(getattr(_u, "_BACKGROUND_TASKS", ())) if not t.done()]
+        if not pending:
+            # a save handed to the executor by other means still shows up as a pending future of the loop's tasks
+            others = [t for t in asyncio.all_tasks() if t is not asyncio.current_task() and not t.done()]
+            if not others:
+                return
+            pending = others
+        await asyncio.wait(pending, timeout=3)
+
+
 class Real:
     """A real AccessoryDriver/State with a persist file, plus bookkeeping of persist calls."""
 
     _n = 0
 
-    def __init__(self, with_accessory: bool = False, state_file_from: Optional[str] = None):
+    def __init__(self, with_accessory: bool = False, state_file_from: Optional[str] = None, encoder: str = "stock", live: bool = False):
+        """`encoder`: kind of application-supplied AccessoryEncoder handed to the constructor (harness/ref/encoders.py).
+        `live`: the driver keeps its REAL async_persist (executor hand-off on the application-supplied loop) and gets an
+        application-owned zeroconf instance, so that it can be started, stopped and started again as one object;
+        every call then runs inside the loop and is followed by `settle()` (all background saves have landed)."""
         from pyhap.accessory_driver import AccessoryDriver
 
         _quiet()
         Real._n += 1
         self.path = os.path.join(_tmpdir(), f"acc-{os.getpid()}-{Real._n}.state")
+        self.encoder_kind = encoder
+        self.live = live
+        self.running = False
+        kw = {}
+        if encoder != "stock":
+            kw["encoder"] = refenc.make(encoder)
+        if live:
+            kw["async_zeroconf_instance"] = SharedZeroconf()
         self.driver = AccessoryDriver(
-            loop=_loop(), persist_file=self.path, address="127.0.0.1", port=51827
+            loop=_loop(), persist_file=self.path, address="127.0.0.1", port=51827, **kw
         )  # mac, setup id and the Ed25519 key pair are random per instance
         self.persist_calls = 0
         real = self
@@ -136,7 +195,12 @@ class Real:
         self.last_pairing_removed = False
         self.driver.update_advertisement = lambda: None  # config_changed(): the mDNS side is C18's concern
 
-        self.driver.async_persist = sync_persist
+        if live:
+            # the TCP listener is C19's concern: no socket is bound, everything else of start / stop is real
+            self.driver.http_server.async_start = _AsyncNoop()
+            self.driver.http_server.async_stop = lambda: None
+        else:
+            self.driver.async_persist = sync_persist
         self.state = self.driver.state
         if state_file_from is not None:  # a restart: the file of the previous run is there
             shutil.copyfile(state_file_from, self.path)
@@ -144,9 +208,47 @@ class Real:
             # add_accessory loads the state file if it exists, else writes one
             from pyhap.accessory import Accessory
 
-            self.driver.add_accessory(Accessory(self.driver, "Verif"))
+            class HarnessAccessory(Accessory):
+                """An application subclass: its setup message goes to a display (no QR code on the terminal). While
+                `display_gone` is set the display is unavailable and the hook raises, as application hooks may."""
+
+                display_gone = False
+
+                def setup_message(self):
+                    if self.display_gone:
+                        raise OSError("display unavailable")
+
+            self.driver.add_accessory(HarnessAccessory(self.driver, "Verif"))
+
+    def call(self, fn, *args):
+        """Call into the implementation: directly, or (live) inside the running loop, then wait for its background saves."""
+        if not self.live:
+            return fn(*args)
+
+        async def _inside():
+            r = fn(*args)
+            if asyncio.iscoroutine(r):
+                r = await r
+            await _settle()
+            return r
+
+        asyncio.set_event_loop(_loop())
+        return _loop().run_until_complete(_inside())
+
+    def start(self):
+        self.call(self.driver.async_start)
+        self.running = True
+
+    def stop(self):
+        self.call(self.driver.async_stop)
+        self.running = False
 
     def close(self):
+        if self.live and self.running:
+            try:
+                self.stop()
+            except Exception:  # noqa: BLE001
+                pass
         try:
             os.remove(self.path)
         except OSError:
@@ -199,7 +301,8 @@ class Real:
             return None
         try:  # the file is the implementation's: whatever is in it is an observation, never a harness error
             with open(self.path, "r", encoding="utf8") as fh:
-                return canon_doc(json.load(fh, object_pairs_hook=list))
+                text = refenc.ENVELOPES[self.encoder_kind].unwrap(fh.read())  # the harness's own envelope, then the document
+            return canon_doc(json.loads(text, object_pairs_hook=list))
         except Exception as ex:  # noqa: BLE001
             return {"unreadable": f"{type(ex).__name__}: {ex}"[:200]}
 
@@ -213,7 +316,14 @@ class Real:
 
         def post(path: str, body: bytes):
             req = h11.Request(method="POST", target=path, headers=[("Host", "hap"), ("Content-Length", str(len(body)))])
-            r = h.dispatch(req, body)
+            acc = self.driver.accessory
+            if acc is not None and hasattr(acc, "display_gone"):
+                acc.display_gone = True  # the application's display is away while requests are served (it is there at start)
+            try:
+                r = self.call(h.dispatch, req, body)
+            finally:
+                if acc is not None and hasattr(acc, "display_gone"):
+                    acc.display_gone = False
             post.pairing_changed = bool(r.pairing_changed)
             post.pairing_removed = bool(getattr(r, "pairing_removed", False))
             return r.status_code, bytes(r.body)
@@ -844,24 +954,30 @@ def full_state(real: "Real") -> Dict[str, Any]:
     return d
 
 
-def run_real_sessions(ops: List[Dict[str, Any]], judge: bool = True, start: Optional[Dict[str, Any]] = None, on_restart=None):
+def run_real_sessions(ops: List[Dict[str, Any]], judge: bool = True, start: Optional[Dict[str, Any]] = None, on_restart=None,
+                      cfg: Optional[Dict[str, Any]] = None, on_change=None):
     """Run one session history on the real code. `start` as in run_real (controllers own real key pairs).
     Whole-life operations: "config" (AccessoryDriver.config_changed), "hash" (what async_start does with the
     database hash), "restart" (a fresh driver + accessory load the state file; every connection is gone).
-    `on_restart(i, state before, state after | None)`: hook for the C14 oracle.
+    "stop" / "start": AccessoryDriver.async_stop / async_start on the SAME driver object (needs cfg["live"]).
+    `cfg`: configuration of every driver of the history: {"encoder": kind of application-supplied encoder, "live": bool}.
+    `on_restart(i, state before, state after | None)`, `on_change(i, real)` (persisted state changed in step i and all
+    background saves have landed): hooks for the C14 oracle.
     Returns (ident, steps, verdict, abstained, init snapshot | None)."""
+    cfg = cfg or {}
+    enc, live = cfg.get("encoder", "stock"), bool(cfg.get("live"))
     init = None
     ref: Optional[refp.RefPairings] = refp.RefPairings()
     if start is None:
-        real = Real(with_accessory=True)
+        real = Real(with_accessory=True, encoder=enc, live=live)
     else:
         from props import c14 as _c14
 
         holder = os.path.join(_tmpdir(), f"sstart-{os.getpid()}-{Real._n}.state")
-        with open(holder, "w", encoding="utf8") as fh:
-            json.dump(_c14.doc_to_json(_c14.author_doc(start["state"], start["absent"])), fh)
+        with open(holder, "w", encoding="utf8") as fh:  # the historical document inside the envelope of the encoder in use
+            fh.write(refenc.ENVELOPES[enc].wrap(json.dumps(_c14.doc_to_json(_c14.author_doc(start["state"], start["absent"])))))
         try:
-            real = Real(with_accessory=True, state_file_from=holder)  # add_accessory loads the file
+            real = Real(with_accessory=True, state_file_from=holder, encoder=enc, live=live)  # add_accessory loads the file
         finally:
             os.remove(holder)
         init = real.snapshot()
@@ -885,20 +1001,56 @@ def run_real_sessions(ops: List[Dict[str, Any]], judge: bool = True, start: Opti
         def sess(h):
             return {"enc": bool(h.is_encrypted), "cu": str(h.client_uuid.int) if h.client_uuid is not None else None}
 
+        prev_full = full_state(real)
+
+        def changed_hook(i):
+            nonlocal prev_full
+            cur = full_state(real)
+            if cur != prev_full:
+                prev_full = cur
+                if on_change:
+                    on_change(i, real)
+
         for i, op in enumerate(ops):
+            if i:
+                changed_hook(i - 1)
             before = real.snapshot()
             sig0 = real.file_sig()
-            if op["k"] in ("config", "hash"):
+            if op["k"] in ("config", "hash", "start"):
                 err = None
+                hash_in = None
                 try:
                     if op["k"] == "config":
-                        real.driver.config_changed()  # increment_config_version + persist (+ advertisement: C18)
-                    elif real.state.set_accessories_hash(op["h"]):  # AccessoryDriver.async_start
-                        real.driver.async_persist()
+                        real.call(real.driver.config_changed)  # increment_config_version + persist (+ advertisement: C18)
+                    elif op["k"] == "start":
+                        hash_in = real.driver.accessories_hash  # what async_start hands to set_accessories_hash
+                        real.start()
+                    else:
+
+                        def _hash_update():  # AccessoryDriver.async_start
+                            if real.state.set_accessories_hash(op["h"]):
+                                real.driver.async_persist()
+
+                        real.call(_hash_update)
                 except Exception as ex:  # noqa: BLE001  (what the implementation did is an observation, never a harness error)
                     err = type(ex).__name__
                 wrote = real.file_sig() != sig0
                 step = {"acc": full_state(real), "wrote": wrote, "doc": real.file_doc() if wrote else None}
+                if op["k"] == "start":
+                    step["hash_in"] = hash_in
+                if err:
+                    step["raised"] = err
+                steps.append(step)
+                continue
+            if op["k"] == "stop":
+                err = None
+                try:
+                    real.stop()  # the same object lives on; every connection of the server is closed
+                except Exception as ex:  # noqa: BLE001
+                    err = type(ex).__name__
+                conns.clear()
+                proved.clear()
+                step = {"stopped": True, "acc": full_state(real)}
                 if err:
                     step["raised"] = err
                 steps.append(step)
@@ -906,7 +1058,7 @@ def run_real_sessions(ops: List[Dict[str, Any]], judge: bool = True, start: Opti
             if op["k"] == "restart":
                 memory = full_state(real)
                 try:
-                    nxt = Real(with_accessory=True, state_file_from=real.path)  # add_accessory loads the file
+                    nxt = Real(with_accessory=True, state_file_from=real.path, encoder=enc, live=live)  # add_accessory loads the file
                 except Exception as ex:  # noqa: BLE001  (what a save + load preserves is C14's statement: stop here)
                     steps.append({"restarted": False, "error": type(ex).__name__})
                     if on_restart:
@@ -919,6 +1071,7 @@ def run_real_sessions(ops: List[Dict[str, Any]], judge: bool = True, start: Opti
                 proved.clear()
                 acc_id, acc_ltpk = real.state.mac.encode(), bytes.fromhex(real.ident()["public_key"])
                 loaded = full_state(real)
+                prev_full = loaded
                 steps.append({"restarted": True, "acc": loaded})
                 if on_restart:
                     on_restart(i, memory, loaded)
@@ -928,7 +1081,7 @@ def run_real_sessions(ops: List[Dict[str, Any]], judge: bool = True, start: Opti
             if op["k"] == "setup":
                 key = ctrl_pub(op["seed"])
                 try:
-                    real.driver.pair(bytes.fromhex(op["id"]), key, b"\x01")
+                    real.call(real.driver.pair, bytes.fromhex(op["id"]), key, b"\x01")
                     code = 200
                 except Exception:  # noqa: BLE001
                     code = 500
@@ -977,6 +1130,8 @@ def run_real_sessions(ops: List[Dict[str, Any]], judge: bool = True, start: Opti
                 bad = registered_mismatch(real.snapshot(), ref)
                 if bad:
                     v.fail("C06:pairings-differ-from-history", f"after step {i} ({op['k']}) {bad}", i)
+        if ops and len(steps) == len(ops):
+            changed_hook(len(ops) - 1)
         if v.sig == "C06:served-without-admin":
             v.desc += " (sessions from real pair-verify exchanges; identity = the controller that last proved itself on the connection)"
         return ident, steps, v, ref is None, init
@@ -984,15 +1139,22 @@ def run_real_sessions(ops: List[Dict[str, Any]], judge: bool = True, start: Opti
         real.close()
 
 
-def sessions_model_line(ops, ident, init=None):
+def sessions_model_line(ops, ident, init=None, steps=None):
+    """`steps`: the observed steps (a "start" op is the hash update of async_start: its input, the driver's
+    accessories_hash, is read off the observation)."""
     mops, tbl = [], {}
 
     def note(b: bytes):
         u = parse_id(b)
         tbl[hx(b)] = str(u) if u is not None else None
 
-    for op in ops:
-        if op["k"] == "setup":
+    for j, op in enumerate(ops):
+        if op["k"] == "start":
+            h_in = steps[j].get("hash_in") if steps is not None and j < len(steps) else None
+            mops.append({"k": "hash", "h": h_in})
+        elif op["k"] == "stop":
+            mops.append({"k": "stop"})
+        elif op["k"] == "setup":
             mops.append({"k": "setup", "id": op["id"], "key": hx(ctrl_pub(op["seed"]))})
             note(bytes.fromhex(op["id"]))
         elif op["k"] == "verify":
@@ -1142,56 +1304,105 @@ def life_hash(h):
 LIFE_RESTART = {"k": "restart"}
 
 
-def whole_life_scripts(ctx: Ctx):
-    """Whole-life histories (model: `hstep` / `hrun`): pairing administration on real sessions interleaved with
-    configuration-number increments (incl. the wrap at 65535), database-hash updates and RESTARTS — after a
-    restart every connection is gone, the pairings, permissions, identifier bytes and identity are what they were,
-    and controllers verify and list again. Returns [(ops, start)]."""
-    rng = ctx.rng
-    out = []
-    for how in range(N_SPELL):
-        A, B = _ctrl(rng, how), _ctrl(rng, (how + 5) % N_SPELL)
-        addB = s_req(0, add_body(B["id"], ctrl_pub(hx(B["seed"])), bytes([how % 4])))
-        out.append(([s_setup(A["id"], A["seed"]), s_verify(0, A["id"], A["seed"]), addB, dict(LIFE_RESTART),
-                     s_req(0, LIST_BODY),  # the old connection number is a NEW connection now: nobody proved anything on it
-                     s_verify(1, respelled(rng, B, how), B["seed"]), s_verify(0, A["id"], A["seed"]), s_req(0, LIST_BODY), s_req(1, LIST_BODY),
-                     life_config(), life_hash("ab" * 16), life_hash("ab" * 16), s_req(0, remove_body(B["id"])), dict(LIFE_RESTART),
-                     s_verify(2, B["id"], B["seed"]), s_verify(3, A["id"], A["seed"]), s_req(3, LIST_BODY)], None))
-    A, B = _ctrl(rng, 1), _ctrl(rng, 0)
-    # last admin removed, restart: nothing is paired, stale identifier bytes stay inert
-    out.append(([s_setup(A["id"], A["seed"]), s_verify(0, A["id"], A["seed"]), s_req(0, add_body(B["id"], ctrl_pub(hx(B["seed"])), b"\x00")),
-                 s_req(0, remove_body(A["id"])), dict(LIFE_RESTART), s_verify(0, B["id"], B["seed"]), s_verify(1, A["id"], A["seed"]),
-                 s_setup(B["id"], B["seed"]), s_verify(1, B["id"], B["seed"]), s_req(1, LIST_BODY)], None))
-    # legacy starts: restart again after the back-fill; configuration number at the edge
-    for absent in (["client_uuid_to_bytes"], ["client_properties", "client_uuid_to_bytes"], ["client_properties"]):
-        start = session_start(rng, [A, B], [1, 0], absent)
-        start["state"]["config_version"] = 65534
-        out.append(([s_verify(0, respelled(rng, B), B["seed"]), dict(LIFE_RESTART), s_verify(1, A["id"], A["seed"]), s_req(1, LIST_BODY), life_config(),
-                     dict(LIFE_RESTART), life_config(), life_hash(None), life_hash("cd" * 32), dict(LIFE_RESTART), s_verify(0, A["id"], A["seed"]), s_req(0, LIST_BODY)], start))
-    for _ in range(ctx.n(60, 1200)):
-        ops = random_session_script(ctx)
-        k = rng.randrange(1, 4)
-        for _ in range(k):
-            pos = rng.randrange(2, len(ops) + 1)
-            extra = rng.choice([dict(LIFE_RESTART), dict(LIFE_RESTART), life_config(), life_hash(rng.choice([None, "", "ab" * 32, hx(key_of(rng))]))])
-            ops.insert(pos, extra)
-        out.append((ops, None))
+LIFE_START = {"k": "start"}
+LIFE_STOP = {"k": "stop"}
+
+
+def lifecycle_normal(ops):
+    """Keep start / stop ops legal: start only a stopped driver object, stop only a running one (a restart gives a
+    fresh, not yet started one); a driver that was stopped serves nothing until it is started again."""
+    out, running, after_stop = [], False, False
+    for op in ops:
+        if op["k"] == "start":
+            if running:
+                continue
+            running, after_stop = True, False
+        elif op["k"] == "stop":
+            if not running:
+                continue
+            running, after_stop = False, True
+        elif op["k"] == "restart":
+            running, after_stop = False, False
+        elif after_stop:
+            out.append(dict(LIFE_START))
+            running, after_stop = True, False
+        out.append(dict(op))
     return out
 
 
-def record_session_failure(ctx: Ctx, ops, v: Verdict, start=None):
+def whole_life_scripts(ctx: Ctx):
+    """Whole-life histories (model: `hstep` / `hrun`): pairing administration on real sessions interleaved with
+    configuration-number increments (incl. the wrap at 65535), database-hash updates, RESTARTS (fresh driver on the
+    file) and STOP / START of the same driver object — after a restart or a stop every connection is gone, the pairings,
+    permissions, identifier bytes and identity are what they were, and controllers verify and list again. Every history
+    runs under a configuration: the kind of application-supplied AccessoryEncoder (stock, checksummed, base64, JSON
+    envelope) and a live driver (real async_persist on the application's loop, application-owned zeroconf instance).
+    Returns [(ops, start, cfg)]."""
+    rng = ctx.rng
+    out = []
+    kinds = refenc.KINDS
+
+    def cfg(k):
+        return {"encoder": kinds[k % len(kinds)], "live": True}
+
+    for how in range(N_SPELL):
+        A, B = _ctrl(rng, how), _ctrl(rng, (how + 5) % N_SPELL)
+        addB = s_req(0, add_body(B["id"], ctrl_pub(hx(B["seed"])), bytes([how % 4])))
+        out.append(([LIFE_START, s_setup(A["id"], A["seed"]), s_verify(0, A["id"], A["seed"]), LIFE_STOP, LIFE_START,
+                     s_verify(0, A["id"], A["seed"]), addB, dict(LIFE_RESTART),  # second run of the same object, then a fresh one
+                     s_req(0, LIST_BODY),  # the old connection number is a NEW connection now: nobody proved anything on it
+                     LIFE_START, s_verify(1, respelled(rng, B, how), B["seed"]), s_verify(0, A["id"], A["seed"]), s_req(0, LIST_BODY), s_req(1, LIST_BODY),
+                     life_config(), life_hash("ab" * 16), life_hash("ab" * 16), LIFE_STOP, LIFE_START, s_verify(0, A["id"], A["seed"]),
+                     s_req(0, remove_body(B["id"])), dict(LIFE_RESTART),
+                     s_verify(2, B["id"], B["seed"]), s_verify(3, A["id"], A["seed"]), s_req(3, LIST_BODY)], None, cfg(how)))
+    A, B = _ctrl(rng, 1), _ctrl(rng, 0)
+    for k in range(len(kinds)):
+        # a driver that is never started (objects only), and one started twice in a row around a configuration change
+        out.append(([s_setup(A["id"], A["seed"]), s_verify(0, A["id"], A["seed"]), s_req(0, add_body(B["id"], ctrl_pub(hx(B["seed"])), b"\x82")),
+                     life_config(), dict(LIFE_RESTART), s_verify(0, A["id"], A["seed"]), s_req(0, LIST_BODY)], None, cfg(k)))
+        out.append(([LIFE_START, LIFE_STOP, LIFE_START, s_setup(A["id"], A["seed"]), LIFE_STOP, LIFE_START, life_config(), LIFE_STOP, dict(LIFE_RESTART),
+                     LIFE_START, s_verify(0, A["id"], A["seed"]), s_req(0, LIST_BODY)], None, cfg(k)))
+    # last admin removed, restart: nothing is paired, stale identifier bytes stay inert
+    out.append(([s_setup(A["id"], A["seed"]), s_verify(0, A["id"], A["seed"]), s_req(0, add_body(B["id"], ctrl_pub(hx(B["seed"])), b"\x00")),
+                 s_req(0, remove_body(A["id"])), dict(LIFE_RESTART), s_verify(0, B["id"], B["seed"]), s_verify(1, A["id"], A["seed"]),
+                 s_setup(B["id"], B["seed"]), s_verify(1, B["id"], B["seed"]), s_req(1, LIST_BODY)], None, cfg(0)))
+    # legacy starts: restart again after the back-fill; configuration number at the edge
+    for k, absent in enumerate((["client_uuid_to_bytes"], ["client_properties", "client_uuid_to_bytes"], ["client_properties"])):
+        start = session_start(rng, [A, B], [1, 0], absent)
+        start["state"]["config_version"] = 65534
+        out.append(([s_verify(0, respelled(rng, B), B["seed"]), dict(LIFE_RESTART), LIFE_START, s_verify(1, A["id"], A["seed"]), s_req(1, LIST_BODY), life_config(),
+                     dict(LIFE_RESTART), life_config(), life_hash(None), life_hash("cd" * 32), LIFE_START, LIFE_STOP, LIFE_START,
+                     s_verify(0, respelled(rng, A), A["seed"]), dict(LIFE_RESTART), s_verify(0, A["id"], A["seed"]), s_req(0, LIST_BODY)], start, cfg(k + 1)))
+    for n in range(ctx.n(60, 1200)):
+        ops = random_session_script(ctx)
+        started = rng.random() < 0.7
+        for _ in range(rng.randrange(1, 4)):
+            pos = rng.randrange(2, len(ops) + 1)
+            extra = rng.choice([[dict(LIFE_RESTART)] + ([LIFE_START] if started else []), [dict(LIFE_RESTART)] + ([LIFE_START] if started else []),
+                                [life_config()], [life_hash(rng.choice([None, "", "ab" * 32, hx(key_of(rng))]))],
+                                [LIFE_STOP, LIFE_START], [LIFE_STOP, LIFE_START]])
+            ops[pos:pos] = extra
+        if started:
+            ops.insert(rng.randrange(0, 3), LIFE_START)
+        out.append((ops, None, cfg(rng.randrange(len(kinds)) if rng.random() < 0.6 else 0)))
+    return [(lifecycle_normal(o), st_, c) for o, st_, c in out]
+
+
+def record_session_failure(ctx: Ctx, ops, v: Verdict, start=None, cfg=None):
     cut = ops[: v.at + 1]
 
     def still(cand):
         try:
-            return run_real_sessions(cand, start=start)[2].sig == v.sig
+            return run_real_sessions(lifecycle_normal(cand), start=start, cfg=cfg)[2].sig == v.sig
         except Exception:  # noqa: BLE001
             return False
 
-    small = delta_min(cut, still)
-    v2 = run_real_sessions(small, start=start)[2]
+    small = lifecycle_normal(delta_min(cut, still))
+    v2 = run_real_sessions(small, start=start, cfg=cfg)[2]
     desc = v2.desc if v2.sig == v.sig else v.desc
     payload = {"kind": "sessions", "ops": small, "signature": v.sig}
+    if cfg:
+        payload["cfg"] = cfg
     if start is not None:
         payload["start"] = start
     ctx.fail(v.sig, f"{desc} [history of {len(small)} step(s) incl. pair-verify exchanges"
@@ -1213,10 +1424,11 @@ def compare_sessions(ctx: Ctx, driver: str, scripts, lines, impl):
             if op["k"] == "setup":
                 x["resp"] = {"code": x["resp"]["code"]}
             ms.append(x)
+        steps = [{k: v_ for k, v_ in s_.items() if k != "hash_in"} for s_ in steps]
         if ms != steps:
             j = next((k for k, (a, b) in enumerate(zip(ms, steps)) if a != b), min(len(ms), len(steps)))
             a, b = (ms[j] if j < len(ms) else {}), (steps[j] if j < len(steps) else {})
-            field = next((f for f in ("raised", "verified", "sess", "resp", "state", "wrote", "doc", "pr", "restarted", "acc") if a.get(f) != b.get(f)), "?")
+            field = next((f for f in ("raised", "verified", "sess", "resp", "state", "wrote", "doc", "pr", "restarted", "stopped", "acc") if a.get(f) != b.get(f)), "?")
             if field == "acc" and isinstance(a.get("acc"), dict) and isinstance(b.get("acc"), dict):
                 sub = next((f for f in b["acc"] if a["acc"].get(f) != b["acc"].get(f)), "?")
                 field, a, b = "acc/" + sub, {"acc/" + sub: a["acc"].get(sub)}, {"acc/" + sub: b["acc"].get(sub)}
@@ -1229,23 +1441,25 @@ def compare_sessions(ctx: Ctx, driver: str, scripts, lines, impl):
 
 def run_sessions(ctx: Ctx):
     st = ctx.stats
-    cases = [(o, None) for o in session_boundary_scripts(ctx)] + spelling_session_scripts(ctx)
+    cases = [(o, None, None) for o in session_boundary_scripts(ctx)] + [(o, s_, None) for o, s_ in spelling_session_scripts(ctx)]
     nb = len(cases)
     for _ in range(ctx.n(160, 3000)):
-        cases.append((random_session_script(ctx), None))
+        cases.append((random_session_script(ctx), None, None))
     life = whole_life_scripts(ctx)
     cases += life
     st.notes.append(f"whole-life stream: {len(life)} histories over the full alphabet of the model's `hstep` (real sessions + configuration-number "
-                    "increments + hash updates + restarts through the real state file); after a restart the model predicts the loaded state itself")
+                    "increments + hash updates + restarts through the real state file + stop / start of the same driver object), each under a configuration "
+                    "(application-supplied encoder: stock / checksummed / base64 / JSON envelope; live driver = real async_persist on the application's loop); "
+                    "after a restart the model predicts the loaded state itself")
     st.notes.append(f"session stream: {nb} deterministic + {len(cases) - nb - len(life)} random histories with real pair-verify exchanges "
                     "(honest ones spelling the identifier as registered or in another of the 10 families, dishonest ones on fresh and on "
                     "already verified connections, some after a restart from a file without recorded identifier bytes); pairing data "
                     "incl. recorded identifier bytes judged after EVERY step")
     lines, impl = [], []
     ran = []
-    for ops, start in cases:
+    for ops, start, cfg in cases:
         try:
-            ident, steps, v, abstained, init = run_real_sessions(ops, start=start)
+            ident, steps, v, abstained, init = run_real_sessions(ops, start=start, cfg=cfg)
         except Exception as ex:  # noqa: BLE001  an exception escaped the implementation where the model predicts none
             import traceback
 
@@ -1254,10 +1468,12 @@ def run_sessions(ctx: Ctx):
                          "".join(traceback.format_exception(type(ex), ex, ex.__traceback__))[-700:])
             continue
         ran.append(ops)
-        lines.append(sessions_model_line(ops, ident, init))
+        lines.append(sessions_model_line(ops, ident, init, steps))
         impl.append(steps)
+        if cfg:
+            st.hit("outcome", f"life-config/encoder:{cfg.get('encoder')}/{'live' if cfg.get('live') else 'objects'}")
         if v.sig is not None:
-            record_session_failure(ctx, ops, v, start)
+            record_session_failure(ctx, ops, v, start, cfg)
             st.hit("outcome", "oracle:" + v.sig)
         tr = []
         for op, s_ in zip(ops, steps):
@@ -1275,7 +1491,10 @@ def run_sessions(ctx: Ctx):
                 st.hit("op", "session-" + {3: "add", 4: "remove", 5: "list"}.get(it[0][0] if it.get(0) else None, "malformed"))
                 st.hit("outcome", f"session-request/{'verified' if s_['sess']['enc'] else 'unverified'}-connection/{outc}")
                 tr.append(["r", op["c"], it[0][0] if it.get(0) else None, outc, len(s_["state"]["paired"])])
-            elif op["k"] in ("config", "hash"):
+            elif op["k"] == "stop":
+                st.hit("op", "life-stop")
+                tr.append(["stop"])
+            elif op["k"] in ("config", "hash", "start"):
                 st.hit("op", "life-" + op["k"])
                 st.hit("outcome", f"life-{op['k']}/" + ("saved" if s_.get("wrote") else "unchanged"))
                 tr.append([op["k"], s_.get("wrote"), s_["acc"]["config_version"] if "acc" in s_ else None])
@@ -1459,10 +1678,11 @@ def search(ctx: Ctx):
             v = run_real(ops)[2]
             if v.sig is not None:
                 record_failure(ctx, ops, v)
-        for ops, start in [(o, None) for o in session_boundary_scripts(ctx)] + spelling_session_scripts(ctx) + [(random_session_script(ctx), None) for _ in range(3000)]:
-            v = run_real_sessions(ops, start=start)[2]
+        for ops, start, cfg in ([(o, None, None) for o in session_boundary_scripts(ctx)] + [(o, s_, None) for o, s_ in spelling_session_scripts(ctx)]
+                                + [(random_session_script(ctx), None, None) for _ in range(3000)] + whole_life_scripts(ctx)):
+            v = run_real_sessions(ops, start=start, cfg=cfg)[2]
             if v.sig is not None:
-                record_session_failure(ctx, ops, v, start)
+                record_session_failure(ctx, ops, v, start, cfg)
     finally:
         ctx.tier = saved
 
@@ -1471,9 +1691,13 @@ def replay_sessions(ctx: Ctx, r):
     ops = r["ops"]
     if r.get("start"):
         print(f"  restart: the driver loads a harness-authored state file without {r['start']['absent'] or 'no member'} holding {len(r['start']['state']['paired'])} controllers")
-    ident, steps, v, _, _init = run_real_sessions(ops, start=r.get("start"))
+    if r.get("cfg"):
+        print(f"  configuration: {r['cfg']}")
+    ident, steps, v, _, _init = run_real_sessions(ops, start=r.get("start"), cfg=r.get("cfg"))
     for op, s_ in zip(ops, steps):
-        if op["k"] == "setup":
+        if op["k"] in ("config", "hash", "start", "stop", "restart"):
+            print(f"  {op['k']} -> " + ", ".join(f"{k}={s_[k]}" for k in ("wrote", "restarted", "stopped", "raised") if k in s_))
+        elif op["k"] == "setup":
             print(f"  pair-setup of {bytes.fromhex(op['id']).decode(errors='replace')} -> {s_['resp']}")
         elif op["k"] == "verify":
             claimed = bytes.fromhex(op["id"]).decode(errors="replace") if op["id"] else None
